@@ -184,6 +184,15 @@ func (c11Gen) Gen(c *gen.Ctx) (out []gen.Tx) {
 			if v.frozen {
 				kind = "STAKE/frozen"
 			}
+			if c.Rng.Intn(8) == 0 {
+				// the stake named in another registered currency the delegator holds
+				t := c11StakeTx(c, v.vk.ValKey, v.vk, v.acc, amt, "STAKE/other-currency")
+				msg := &staking.Stake{ValidatorAddress: v.vk.ValKey.Addr, StakeAddress: v.acc.Addr, ValidatorPubKey: v.vk.ValKey.Pub, ValidatorECDSAPubKey: v.vk.EcPub, NodeName: v.vk.Name, Stake: core.OLTi(amt)}
+				msg.Stake.Currency = "VT"
+				t.Bytes = core.BuildTx(msg, core.DefaultFee(), c11Memo(c), v.acc, v.vk.ValKey)
+				out = append(out, t)
+				continue
+			}
 			out = append(out, c11StakeTx(c, v.vk.ValKey, v.vk, v.acc, amt, kind))
 		case r < 22: // first stake of a key that is not a validator (candidate, or a validator that left)
 			v := pickView(func(v *c11GenVal) bool { return !v.exists })
